@@ -1,11 +1,334 @@
-import KcpVerif.Model.Kcp
-/-! C05 — no datagram can crash or bloat the process. -/
+import KcpVerif.Lemmas.KcpTotalOps
+/-!
+C05 — no datagram can crash or bloat the process (protocol-core part, DESIGN.md 7.5).
+
+The model `Model/Kcp.lean` records every input- or state-dependent slice-bounds failure of
+`kcp.go` as a `panic : Bool` flag.  Here:
+
+* `InvK` (in `Lemmas/KcpTotal.lean`): the decidable state invariant
+  (`24 < mtu`, `mss + 24 = mtu`, `mss ≤ mtuLimit`, `|buffer| = 3·(mtu + 24)`, every queued outgoing
+  segment carries at most `mss` bytes, every received one at most `mtuLimit`);
+* `C05_input_total`: for EVERY byte string, packet type, ack mode, clock and every state satisfying
+  `InvK`, `Input` does not panic and re-establishes `InvK`;
+* `C05_input_ret_spec` / `C05_input_ret_cases`: the return code, in ANY state, is the function
+  `inputRet conv bytes` of the bytes and the conversation id alone, with values in {0, −1, −2, −3};
+* `C05_inv_*`, `C05_*_total`: `InvK` holds for `NewKCP` and is preserved by every operation with
+  arbitrary arguments, none of which panics under it;
+* `C05_core_never_panics`: by induction over an arbitrary operation list from `NewKCP`;
+* `C05_acklist_*`: the ack list grows by at most one entry per PUSH header walked, is emptied by
+  every flush, and is shorter than `mtu/24` after every `Input` that returns 0;
+* `C05_footprint_partial`: the bytes held by the core are bounded by queue lengths × segment bound
+  (the queue lengths themselves are C04's).
+-/
 namespace KcpVerif.Props
-open KcpVerif KcpVerif.Gen KcpVerif.Kcp
+open KcpVerif KcpVerif.Gen KcpVerif.Kcp KcpVerif.Total
+
+/-! ### 1. `Input` is total -/
 
 /-- a datagram too short for one header is rejected without touching the state -/
 theorem C05_input_short (k : Kcp) (d : Bytes) (r n : Bool) (now : U32) (h : d.length < IKCP_OVERHEAD) :
     input k d r n now = ⟨k, -1, [], false⟩ := by
   unfold input; simp [h]
+
+/-- **No byte string can make `Input` panic**, in any state satisfying the invariant, whatever the
+packet type, ack mode and clock; and the invariant holds again afterwards (so the next datagram
+cannot either).  Includes the `flush` that `Input` may run. -/
+theorem C05_input_total (k : Kcp) (d : Bytes) (regular ackNoDelay : Bool) (now : U32) (h : InvK k) :
+    (input k d regular ackNoDelay now).panic = false ∧ InvK (input k d regular ackNoDelay now).k :=
+  ⟨(input_total h d regular ackNoDelay now).1, (input_total h d regular ackNoDelay now).2.1⟩
+
+/-- the parse loop alone never fails, in any state at all: the payload it hands to `parse_data` was
+checked against `mtuLimit` (fix D3) -/
+theorem C05_inputLoop_never_panics (regular : Bool) (fuel : Nat) (d : Bytes) (k : Kcp) :
+    (inputLoop regular fuel d { k := k }).panic = false :=
+  (inputLoop_ok regular fuel d { k := k } rfl rfl).1
+
+/-- `flush` never writes outside `kcp.buffer`: every segment written has `24 + |data| ≤ mtu`, so
+after `makeSpace` the pending bytes never exceed `mtu ≤ |buffer|/3`. -/
+theorem C05_flush_total (k : Kcp) (full : Bool) (now : U32) (h : InvK k) :
+    (flush k full now).panic = false ∧ InvK (flush k full now).k :=
+  ⟨(flush_total h full now).1, (flush_total h full now).2.1⟩
+
+/-! ### 2. the return code -/
+
+/-- **The return code of `Input`, in any state, is `inputRet conv bytes`**: `−1` when shorter than a
+header; otherwise walk the headers — `−1` foreign conversation id, `−2` payload truncated or larger
+than `mtuLimit`, `−3` unknown command, `0` when fewer than 24 bytes remain. -/
+theorem C05_input_ret_spec (k : Kcp) (d : Bytes) (regular ackNoDelay : Bool) (now : U32) :
+    (input k d regular ackNoDelay now).ret = inputRet k.conv d :=
+  input_ret k d regular ackNoDelay now
+
+theorem C05_input_ret_cases (k : Kcp) (d : Bytes) (regular ackNoDelay : Bool) (now : U32) :
+    (input k d regular ackNoDelay now).ret = 0 ∨ (input k d regular ackNoDelay now).ret = -1 ∨
+    (input k d regular ackNoDelay now).ret = -2 ∨ (input k d regular ackNoDelay now).ret = -3 := by
+  rw [input_ret]; exact inputRet_cases _ _
+
+/-- the walk of `inputRet` does not depend on the iteration bound the model uses -/
+theorem C05_retSpec_fuel_irrelevant (conv : U32) (f : Nat) (d : Bytes) (h : d.length / IKCP_OVERHEAD < f) :
+    retSpec conv f d = retSpec conv (d.length / IKCP_OVERHEAD + 1) d :=
+  retSpec_fuel conv f _ d h (Nat.lt_succ_self _)
+
+/-- the iteration bound of the model's parse loop is an artefact: any bound above `|d|/24` gives the
+same result (the Go loop has none; it ends when fewer than 24 bytes remain) -/
+theorem C05_inputLoop_fuel_irrelevant (regular : Bool) (f : Nat) (d : Bytes) (st : InLoop)
+    (h : d.length / IKCP_OVERHEAD < f) :
+    inputLoop regular f d st = inputLoop regular (d.length / IKCP_OVERHEAD + 1) d st :=
+  inputLoop_fuel regular f _ d st h (Nat.lt_succ_self _)
+
+/-- a datagram whose FIRST header is rejected (too short, foreign conversation, truncated/oversize
+payload, unknown command) leaves the state untouched and emits nothing — in any state -/
+theorem C05_input_reject_first_noop (k : Kcp) (d : Bytes) (regular ackNoDelay : Bool) (now : U32)
+    (h : d.length < IKCP_OVERHEAD ∨ rd32 d 0 ≠ k.conv ∨ badLen d ∨ badCmd d) :
+    (input k d regular ackNoDelay now).k = k ∧ (input k d regular ackNoDelay now).outs = [] ∧
+    (input k d regular ackNoDelay now).ret < 0 :=
+  input_reject_first k d regular ackNoDelay now h
+
+/-- a rejected datagram never makes the core transmit — in any state -/
+theorem C05_input_rejected_silent (k : Kcp) (d : Bytes) (regular ackNoDelay : Bool) (now : U32)
+    (h : (input k d regular ackNoDelay now).ret < 0) : (input k d regular ackNoDelay now).outs = [] :=
+  input_neg_outs k d regular ackNoDelay now h
+
+/-- first header carries a foreign conversation id: `−1` -/
+theorem C05_input_ret_conv (k : Kcp) (d : Bytes) (r n : Bool) (now : U32)
+    (h1 : ¬ d.length < IKCP_OVERHEAD) (h2 : rd32 d 0 ≠ k.conv) : (input k d r n now).ret = -1 := by
+  rw [input_ret]; unfold inputRet retSpec; rw [if_neg h1, if_neg h1, if_pos h2]
+
+/-- first header announces more payload than follows, or more than a pool buffer: `−2` -/
+theorem C05_input_ret_len (k : Kcp) (d : Bytes) (r n : Bool) (now : U32)
+    (h1 : ¬ d.length < IKCP_OVERHEAD) (h2 : rd32 d 0 = k.conv) (h3 : badLen d) : (input k d r n now).ret = -2 := by
+  rw [input_ret]; unfold inputRet retSpec
+  rw [if_neg h1, if_neg h1, if_neg (by simpa using h2), if_pos h3]
+
+/-- first header has an unknown command: `−3` -/
+theorem C05_input_ret_cmd (k : Kcp) (d : Bytes) (r n : Bool) (now : U32)
+    (h1 : ¬ d.length < IKCP_OVERHEAD) (h2 : rd32 d 0 = k.conv) (h3 : ¬ badLen d) (h4 : badCmd d) :
+    (input k d r n now).ret = -3 := by
+  rw [input_ret]; unfold inputRet retSpec
+  rw [if_neg h1, if_neg h1, if_neg (by simpa using h2), if_neg h3, if_pos h4]
+
+/-! ### 3. the invariant is reachable-inductive; nothing ever panics -/
+
+theorem C05_inv_new (conv : U32) : InvK (Kcp.new conv) := invK_new conv
+
+/-- `Send` never panics once `mss ≤ mtuLimit` — what the repaired `SetMtu` guarantees (D1) -/
+theorem C05_send_total (k : Kcp) (b : Bytes) (h : InvK k) : (send k b).panic = false ∧ InvK (send k b).k :=
+  send_total h b
+
+theorem C05_inv_recv (k : Kcp) (buflen : Nat) (h : InvK k) : InvK (recv k buflen).k := recv_total h buflen
+
+/-- `Recv`'s running re-slice `buffer = buffer[len(seg.data):]` (a state-dependent slice the model
+does not flag) cannot fail: the merge loop copies exactly `PeekSize()` bytes, already checked
+against `len(buffer)` -/
+theorem C05_recv_fits (k : Kcp) (buflen : Nat) : (recv k buflen).data.length ≤ buflen := recv_fits k buflen
+
+theorem C05_update_total (k : Kcp) (now : U32) (h : InvK k) : (update k now).panic = false ∧ InvK (update k now).k :=
+  ⟨(update_total h now).1, (update_total h now).2.1⟩
+
+/-- the repaired `SetMtu` (refuses `mtu − 24 > mtuLimit` and shrinking below queued sizes: D1, D2)
+keeps the invariant for EVERY argument -/
+theorem C05_inv_setMtu (k : Kcp) (m : Int) (h : InvK k) : InvK (setMtu k m).1 := setMtu_total h m
+
+theorem C05_inv_noDelay (k : Kcp) (a b c d : Int) (h : InvK k) : InvK (noDelay k a b c d) := noDelay_total h a b c d
+
+theorem C05_inv_wndSize (k : Kcp) (s r : Int) (h : InvK k) : InvK (wndSize k s r) := wndSize_total h s r
+
+/-- every operation, with arbitrary arguments, is total under `InvK` and preserves it -/
+theorem C05_step_total (k : Kcp) (op : Op) (h : InvK k) : (step k op).panic = false ∧ InvK (step k op).k :=
+  step_total h op
+
+/-- **Headline: no operation of the core ever panics.**  Start from `NewKCP(conv)` and apply ANY
+list of operations with ANY arguments (all byte strings for `Input` and `Send`, any clock, any
+`SetMtu`/`NoDelay`/`WndSize` values, any `Recv` buffer length): `run` stops at the first panic and
+reports it — it never does; and the final state satisfies `InvK`. -/
+theorem C05_core_never_panics (conv : U32) (ops : List Op) :
+    (run (Kcp.new conv) ops).panic = false ∧ InvK (run (Kcp.new conv) ops).k :=
+  run_total (invK_new conv) ops
+
+/-- the same, stated on the set of reachable states -/
+theorem C05_reachable_total (k : Kcp) (h : Reachable k) (op : Op) : (step k op).panic = false :=
+  (step_total h.invK op).1
+
+theorem C05_inv_reachable (k : Kcp) (h : Reachable k) : InvK k := h.invK
+
+/-! ### 4. size bounds -/
+
+/-- the ack list grows by at most one entry per PUSH header the loop walks over
+(`pushSpec`, a function of the bytes), hence by at most `|d| / 24` — for every return code -/
+theorem C05_acklist_growth (k : Kcp) (d : Bytes) (regular ackNoDelay : Bool) (now : U32) (h : InvK k) :
+    (input k d regular ackNoDelay now).k.acklist.length ≤
+      k.acklist.length + pushSpec k.conv (d.length / IKCP_OVERHEAD + 1) d ∧
+    pushSpec k.conv (d.length / IKCP_OVERHEAD + 1) d ≤ d.length / IKCP_OVERHEAD :=
+  ⟨(input_total h d regular ackNoDelay now).2.2.2.2.1, pushSpec_le _ _ _⟩
+
+/-- every flush empties the ack list -/
+theorem C05_acklist_flush (k : Kcp) (full : Bool) (now : U32) (h : InvK k) : (flush k full now).k.acklist = [] :=
+  (flush_total h full now).2.2.1
+
+/-- after an `Input` that returns 0 the ack list is shorter than `mtu/24` (the clocking flush);
+`Input` never changes the MTU -/
+theorem C05_acklist_after_ok (k : Kcp) (d : Bytes) (regular ackNoDelay : Bool) (now : U32) (h : InvK k)
+    (hr : (input k d regular ackNoDelay now).ret = 0) :
+    (input k d regular ackNoDelay now).k.acklist.length < (k.mtu / u32 IKCP_OVERHEAD).toNat ∧
+    (input k d regular ackNoDelay now).k.mtu = k.mtu :=
+  ⟨(input_total h d regular ackNoDelay now).2.2.2.2.2 hr, (input_total h d regular ackNoDelay now).2.2.2.1⟩
+
+/-- **`acklist_bound`**: if the list was below `mtu/24` (as after every successful `Input` and every
+flush), then after ANY `Input` — also one that aborts with −1/−2/−3 after valid PUSH headers and
+therefore skips the flush — it is below `mtu/24 + |d|/24`. -/
+theorem C05_acklist_bound (k : Kcp) (d : Bytes) (regular ackNoDelay : Bool) (now : U32) (h : InvK k)
+    (h0 : k.acklist.length < (k.mtu / u32 IKCP_OVERHEAD).toNat) :
+    (input k d regular ackNoDelay now).k.acklist.length <
+      (k.mtu / u32 IKCP_OVERHEAD).toNat + d.length / IKCP_OVERHEAD := by
+  have h1 := C05_acklist_growth k d regular ackNoDelay now h
+  omega
+
+/-- for datagrams a session can deliver (`|d| ≤ mtuLimit`) the bound is a constant: fewer than
+`63 + 62` entries of 8 bytes -/
+theorem C05_acklist_bound_session (k : Kcp) (d : Bytes) (regular ackNoDelay : Bool) (now : U32) (h : InvK k)
+    (h0 : k.acklist.length < (k.mtu / u32 IKCP_OVERHEAD).toNat) (hd : d.length ≤ mtuLimit) :
+    (input k d regular ackNoDelay now).k.acklist.length < 63 + 62 := by
+  have h1 := C05_acklist_bound k d regular ackNoDelay now h h0
+  have h2 := h.mss_le
+  have h3 := h.mss_eq
+  have h4 : (k.mtu / u32 IKCP_OVERHEAD).toNat = k.mtu.toNat / 24 := by
+    unfold u32 IKCP_OVERHEAD
+    rw [BitVec.toNat_udiv]
+    simp only [BitVec.toNat_ofNat, Nat.reducePow, Nat.reduceMod]
+  unfold IKCP_OVERHEAD mtuLimit at *
+  omega
+
+/-- only `Input` can lengthen the ack list (by at most `|d|/24`); a flush empties it; every other
+operation — `Update` included — leaves it as long or shorter -/
+theorem C05_acklist_step (k : Kcp) (op : Op) (h : InvK k) :
+    (step k op).k.acklist.length ≤
+      (match op with
+       | .input d _ _ _ => k.acklist.length + d.length / IKCP_OVERHEAD
+       | .flush _ _ => 0
+       | _ => k.acklist.length) :=
+  step_acklist h op
+
+/-- **along ANY history from `NewKCP`** the ack list is bounded by `ackBound`, a function of the
+operation list alone: the bytes received since the most recent flush, divided by 24 — proportional
+to line rate × flush interval, not to the length of the history -/
+theorem C05_acklist_history (conv : U32) (ops : List Op) :
+    (run (Kcp.new conv) ops).k.acklist.length ≤ ackBound 0 ops :=
+  run_acklist (invK_new conv) 0 (Nat.le_refl _) ops
+
+/-- payload bytes held in a queue -/
+def segBytes (l : List Seg) : Nat := (l.map (·.data.length)).sum
+
+theorem C05_segBytes_le (m : Nat) (l : List Seg) (h : DataLe m l) : segBytes l ≤ l.length * m := by
+  induction l with
+  | nil => simp [segBytes]
+  | cons s rest ih =>
+    have h1 := h.head
+    have h2 := ih h.tail
+    simp only [segBytes, List.map_cons, List.sum_cons, List.length_cons] at *
+    rw [Nat.add_mul]; omega
+
+/-- bytes the core holds: the four queues, the ack list (8 bytes per entry), the flush buffer -/
+def footprint (k : Kcp) : Nat :=
+  segBytes k.snd_queue + segBytes k.snd_buf + segBytes k.rcv_buf + segBytes k.rcv_queue
+    + 8 * k.acklist.length + k.bufLen
+
+/-- **Proved part of the footprint bound**: in every reachable state the bytes held are bounded by
+queue LENGTHS times the per-segment bounds of `InvK` (no datagram can plant an oversize segment). -/
+theorem C05_footprint_partial (k : Kcp) (h : Reachable k) :
+    footprint k ≤ (k.snd_queue.length + k.snd_buf.length) * k.mss.toNat
+      + (k.rcv_buf.length + k.rcv_queue.length) * mtuLimit + 8 * k.acklist.length + 3 * (k.mtu.toNat + IKCP_OVERHEAD) ∧
+    k.mss.toNat ≤ mtuLimit ∧ k.mtu.toNat ≤ mtuLimit + IKCP_OVERHEAD := by
+  have hi := h.invK
+  have h1 := C05_segBytes_le _ _ hi.sndq
+  have h2 := C05_segBytes_le _ _ hi.sndb
+  have h3 := C05_segBytes_le _ _ hi.rcvb
+  have h4 := C05_segBytes_le _ _ hi.rcvq
+  have h5 := hi.buf_eq
+  have h6 := hi.mss_le
+  have h7 := hi.mss_eq
+  unfold footprint
+  simp only [Nat.add_mul]
+  omega
+
+/-- **How the bounds combine (`C05_footprint`)**: with the queue LENGTHS bounded — `rcv_queue`,
+`rcv_buf` by `W`, `snd_buf` by `S` (C04: the receive window and the effective send window),
+`snd_queue` by `Q` (the application's backlog; sessions bound it through `WaitSnd`), the ack list
+by `A` (`C05_acklist_bound`) — the bytes held by a reachable core are bounded by a closed
+expression that no datagram content can influence. -/
+theorem C05_footprint (k : Kcp) (h : Reachable k) (W S Q A : Nat)
+    (hrq : k.rcv_queue.length ≤ W) (hrb : k.rcv_buf.length ≤ W) (hsb : k.snd_buf.length ≤ S)
+    (hsq : k.snd_queue.length ≤ Q) (ha : k.acklist.length ≤ A) :
+    footprint k ≤ (Q + S + 2 * W) * mtuLimit + 8 * A + 3 * (mtuLimit + 2 * IKCP_OVERHEAD) := by
+  have hp := C05_footprint_partial k h
+  have h1 : (k.snd_queue.length + k.snd_buf.length) * k.mss.toNat ≤ (Q + S) * mtuLimit :=
+    Nat.mul_le_mul (by omega) hp.2.1
+  have h2 : (k.rcv_buf.length + k.rcv_queue.length) * mtuLimit ≤ (2 * W) * mtuLimit :=
+    Nat.mul_le_mul (by omega) (Nat.le_refl _)
+  have h3 := hp.1
+  have h4 := hp.2.2
+  rw [Nat.add_mul (Q + S)]
+  omega
+
+/-- **Full footprint statement** (not proved here — the length bounds are C04's, proved by worker
+`kc04` under its own hypotheses on the window configuration): the hypotheses of `C05_footprint`
+hold in every reachable state with `W = rcv_wnd`, `S = snd_wnd`. -/
+def C05_footprint_full : Prop :=
+  ∀ k, Reachable k → (∀ k', Reachable k' → k'.rcv_queue.length ≤ k'.rcv_wnd.toNat ∧
+      k'.rcv_buf.length ≤ k'.rcv_wnd.toNat ∧ k'.snd_buf.length ≤ k'.snd_wnd.toNat) →
+    footprint k ≤ (k.snd_queue.length + k.snd_wnd.toNat + 2 * k.rcv_wnd.toNat) * mtuLimit
+      + 8 * k.acklist.length + 3 * (mtuLimit + 2 * IKCP_OVERHEAD)
+
+/-- … which, with C04 as a hypothesis, is a corollary -/
+theorem C05_footprint_given_C04 : C05_footprint_full := by
+  intro k h hc
+  have := hc k h
+  exact C05_footprint k h k.rcv_wnd.toNat k.snd_wnd.toNat k.snd_queue.length k.acklist.length
+    this.1 this.2.1 this.2.2 (Nat.le_refl _) (Nat.le_refl _)
+
+/-! ### non-vacuity: concrete states and inputs -/
+
+/-- a PUSH datagram for conversation 7: sn 0, three payload bytes -/
+def exPush : Bytes := encodeHdr 7 81 0 32 0 0 0 3 ++ [1, 2, 3]
+
+/-- a busy history: windows, nodelay, a 3000-byte message (3 fragments), a flush, a genuine PUSH,
+an ACK for sn 0, garbage, a truncated PUSH, an MTU change, a read, an update -/
+def exOps : List Op :=
+  [.wndSize 128 128, .noDelay 1 10 2 1, .send (List.replicate 3000 1), .flush true 0,
+   .input exPush true false 5,
+   .input (encodeHdr 7 82 0 32 0 0 0 0) true false 10,
+   .input (List.replicate 100 0xff) true false 11,
+   .input (exPush.take 26) true false 12,
+   .setMtu 1450, .recv 10, .update 20]
+
+/-- the state reached is not trivial: three segments in flight, one message received, MTU changed -/
+example : ((run (Kcp.new 7) exOps).k.snd_buf.length, (run (Kcp.new 7) exOps).k.rcv_nxt,
+           (run (Kcp.new 7) exOps).k.mtu, (run (Kcp.new 7) exOps).panic) = (3, 1#32, 1450#32, false) := by
+  decide +kernel
+
+/-- `InvK` is decidable and holds there (by the theorem, and by evaluation) -/
+example : InvK (run (Kcp.new 7) exOps).k := (C05_core_never_panics 7 exOps).2
+example : InvK (run (Kcp.new 7) exOps).k := by decide +kernel
+example : Reachable (Kcp.new 7) := Reachable.new 7
+
+/-- all four return codes occur -/
+example : (input (Kcp.new 7) exPush true false 5).ret = 0 := by decide +kernel
+example : (input (Kcp.new 7) (List.replicate 100 0xff) true false 5).ret = -1 := by decide +kernel
+example : (input (Kcp.new 7) (exPush.take 26) true false 5).ret = -2 := by decide +kernel
+example : (input (Kcp.new 7) (encodeHdr 7 81 0 32 0 0 0 1501 ++ List.replicate 1501 0) true false 5).ret = -2 := by
+  decide +kernel
+example : (input (Kcp.new 7) (encodeHdr 7 99 0 32 0 0 0 0) true false 5).ret = -3 := by decide +kernel
+/-- a PUSH leaves one ack-list entry (no flush yet: 1 < 1400/24) -/
+example : (input (Kcp.new 7) exPush true false 5).k.acklist.length = 1 := by decide +kernel
+
+/-- the history bound is small and computable -/
+example : ackBound 0 exOps = 7 := by decide +kernel
+
+/-- the `panic` flags are live, and `InvK` is what rules them out: outside the invariant each of
+the three guarded sites fails (D1: `Send` with `mss > mtuLimit`; D2: `flush` with a queued segment
+larger than the buffer; D3: `parse_data` with a payload larger than a pool buffer). -/
+example : (send { Kcp.new 7 with mtu := 2024#32, mss := 2000#32 } (List.replicate 2000 0)).panic = true := by
+  decide +kernel
+example : (flush { Kcp.new 7 with snd_buf := [{ data := List.replicate 5000 0 }] } true 0).panic = true := by
+  decide +kernel
+example : (parseData (Kcp.new 7) { data := List.replicate 1501 0 }).panic = true := by decide +kernel
 
 end KcpVerif.Props
